@@ -167,9 +167,14 @@ pub fn math_gaps(root: &SyntaxNode) -> Vec<String> {
             out.push(format!("Equation block={}", block));
         }
         K::Math | K::MathDelimited => {
+            // an empty Math node (an omitted argument such as in `f(, a)`) has no atoms and no gaps
+            if !n.children().any(|c| c.kind() != K::Space && !tree::is_comment(c.kind())) {
+                return;
+            }
             let mut s = format!("{:?}:", n.kind());
             let mut gap = Gap::None;
             let mut first = true;
+            let mut after_hash = false;
             for c in n.children() {
                 let ck = c.kind();
                 if ck == K::Space {
@@ -199,7 +204,13 @@ pub fn math_gaps(root: &SyntaxNode) -> Vec<String> {
                 }
                 first = false;
                 gap = Gap::None;
-                s.push_str(&atom_repr(c));
+                // embedded code after `#` is opaque: the printer may legitimately restyle it (`#(1)` -> `#1`)
+                if after_hash {
+                    s.push_str("<code>");
+                } else {
+                    s.push_str(&atom_repr(c));
+                }
+                after_hash = ck == K::Hash;
             }
             if gap != Gap::None && !first {
                 s.push(match gap {
